@@ -110,6 +110,43 @@ def spec_mutants(d):
     return ok
 
 
+def optables_probe(d):
+    """S8 derivation judge: an edit sequence of a two-module family; a corrupted event (rm of a pair that is not current) and a dropped
+    event (the def whose result a later rm removes) must both be reported"""
+    def ev(module, kind, **kw):
+        e = {"module": module, "ev": kind, "parent": "none", "name": "", "opcode": -1, "old_name": "", "old_opcode": -1, "cur_name": "", "cur_opcode": -1}
+        e.update(kw)
+        return e
+    orig = [ev("m.a", "init"), ev("m.a", "def", name="X", opcode=1), ev("m.a", "def", name="Y", opcode=2), ev("m.a", "finalize"),
+            ev("m.b", "init", parent="m.a"), ev("m.b", "rm", name="X", opcode=1), ev("m.b", "def", name="Z", opcode=1), ev("m.b", "finalize")]
+    corrupted = copy.deepcopy(orig)
+    corrupted[5]["opcode"] = 2
+    dropped = orig[:1] + orig[2:]
+    ok = True
+    for tag, events in (("original", orig), ("corrupted", corrupted), ("event dropped", dropped)):
+        tf = d / "opt-probe.ndjson"
+        tf.write_text("\n".join(json.dumps(e) for e in events) + "\n")
+        r = lib.tlc("OpTablesTrace", workers=1, env={"TRACE_FILE": tf}, tag="st-opt", timeout=300)
+        got = sorted(set((json.loads(json.loads(s_)) if s_.startswith('"') else json.loads(s_))["clause"] for s_ in r.printed("V")))
+        consumed = bool(r.printed("DONE"))
+        good = consumed and ((not got) if tag == "original" else bool(got))
+        ok = ok and good
+        print("  %-17s %-22s %-14s -> %s%s" % ("OpTablesTrace", "derivation", tag, ("rejected: " + ", ".join(got)) if got else "accepted", "" if good else "   <== UNEXPECTED"))
+    return ok
+
+
+def free_probe():
+    """S1 in its free-running mode (C11): the reader builds the value the bytes denote and compares it with the value xdis returned;
+    a recording whose value differs in one token, or lacks one, must be rejected"""
+    buf = [ord("("), 2, 0, 0, 0, ord("N"), ord("T")]
+    t = lambda k, n=0: {"k": k, "n": n, "b": []}
+    base = {"magic": 3413, "ver": [3, 8], "strict": 0, "free": 1, "cmp": 1, "consumed": -1, "buf": buf}
+    recs = [dict(base, id="free:ok", tok=[t("tuple", 2), t("none"), t("true")], _probe="original"),
+            dict(base, id="free:other-value", tok=[t("tuple", 2), t("none"), t("false")], _probe="corrupted"),
+            dict(base, id="free:dropped", tok=[t("tuple", 2), t("none")], _probe="event dropped")]
+    return expect("free-running", "MarshalTrace", recs)
+
+
 def main():
     d = lib.fresh("selftest")
     ok = True
@@ -172,6 +209,8 @@ def main():
          "ins": [{"o": 0, "n": "LOAD_CONST", "jt": 0, "sl": 1, "a": 0, "r": "31", "c": 0}, {"o": 2, "n": "RETURN_VALUE", "jt": 1, "sl": -1, "a": -1, "r": "", "c": 0}]}
     ok &= run_probe("row", "ListingTrace", o, lambda r: r["rows"][1].__setitem__("m", 0), lambda r: r["rows"].pop(0))
     ok &= run_probe("stdout", "ListingTrace", o, lambda r: r.__setitem__("stdout", 12), lambda r: r.__setitem__("raised", "TypeError: x"))
+    ok &= optables_probe(d)
+    ok &= free_probe()
     ok &= spec_mutants(d)
     print("selftest: %s" % ("every corruption was rejected, every original accepted, every spec mutant violates an invariant" if ok else "FAILED"))
     return 0 if ok else 1
